@@ -81,3 +81,19 @@ P['C09'] = dict(
     dict(name='H09C', src='C09_wirelength.cpp', covers=['end'], defines={'VCAP': 8, 'H09C': None, 'NN': 2, 'NP': 3, 'NUPD': 2}, cfg=dict(fp='exact'), native_srcs=lib_except('coloquinte.cpp', 'parameters.cpp', 'place_detailed/incr_net_model.cpp'),
          quick=dict(defines={'NN': 1}), thorough=dict(defines={'NUPD': 3})),
   ])
+
+ALL_IR = ['place_global/transportation_1d.cpp', 'place_detailed/abacus_legalizer.cpp', 'place_detailed/tetris_legalizer.cpp']
+LEMON_ASSUME = 'lemon::NetworkSimplex modelled by its contract: run() returns OPTIMAL and potential() is an arbitrary dual-feasible integer potential of the graph the repository built'
+EIGEN_ASSUME = 'Eigen conjugate gradient modelled by its contract: returns an arbitrary vector of finite floats of the right size'
+P['C19'] = dict(
+  design_ref='DESIGN.md section 3 C19',
+  level_text='Solver-checked on the real code: ColoquinteParameters(effort) for EVERY 32-bit effort outside 1..9 (symbolic) throws and no UB trap (table index, assert) fires first; efforts 1..9 construct parameters that pass check(); every Circuit setter with every wrong length throws and writes nothing (object write-protected); addNet/setNets refuse any out-of-range pin cell index (symbolic over the whole int range) and inconsistent lengths with an exception; a parameter set rejected by the check makes legalize/placeDetailed/placeGlobal throw with the circuit (public state) write-protected.',
+  text=dict(bounds=dict(quick='effort: all 2^32 values; setters: 10 setters x lengths 0..4 on a 2-cell circuit; pin indices: all ints; 8 rejected fields x 3 stages', thorough='same'),
+            outside='parameter fields other than the 8 sampled rejected ones; combinations of several rejected fields'),
+  assumptions=STD_ASSUME + ['libm (exp/log/pow/round) evaluated natively on concrete arguments'],
+  harnesses=[
+    dict(name='H19A', src='C19_invalid.cpp', covers=['end'], defines={'VCAP': 6, 'H19A': None}, cfg=dict(fp='exact'), ir_srcs=ALL_IR, native_srcs=ALL_IR, native_flags=['-llemon']),
+    dict(name='H19B', src='C19_invalid.cpp', covers=['end'], defines={'VCAP': 6, 'H19B': None}, cfg=dict(fp='exact'), ir_srcs=ALL_IR, native_srcs=ALL_IR, native_flags=['-llemon']),
+    dict(name='H19C', src='C19_invalid.cpp', covers=['end'], defines={'VCAP': 6, 'H19C': None}, cfg=dict(fp='exact'), ir_srcs=ALL_IR, native_srcs=ALL_IR, native_flags=['-llemon']),
+    dict(name='H19D', src='C19_invalid.cpp', covers=['end'], defines={'VCAP': 6, 'H19D': None}, cfg=dict(fp='exact'), ir_srcs=ALL_IR, native_srcs=ALL_IR, native_flags=['-llemon']),
+  ])
